@@ -178,7 +178,7 @@ def reaches_occurs_check(seq):
 # ------------------------------------------------------------------ generator
 def gen_histories(ctx):
     rng = ctx.rng
-    n_small = ctx.scale(700, 9000)
+    n_small = ctx.scale(600, 9000)
     n_five = ctx.scale(25, 500)
     n_decide = ctx.scale(25, 200)
     out, seen, skipped = [], set(), 0
